@@ -236,10 +236,19 @@ func (env *Env) ident(name string) TV {
 	case "nil":
 		return TV{"0", types.Typ[types.UntypedNil]}
 	case "result":
-		if len(env.results) < 1 {
-			sfail("no result here")
+		if len(env.results) >= 1 {
+			return env.results[0]
 		}
-		return env.results[0]
+		// no function result in this context (a loop invariant): a local variable of that name, if there is one
+		if v, ok := env.vars[name]; ok {
+			return v
+		}
+		if env.lookup != nil {
+			if v, ok := env.lookup(name, env); ok {
+				return v
+			}
+		}
+		sfail("no result here")
 	}
 	if strings.HasPrefix(name, "result") {
 		if k, err := strconv.Atoi(name[6:]); err == nil {
